@@ -732,9 +732,10 @@ def minimise(doc, budget_s=60):
                 return True
         return False
 
-    if not fails(state['plan'], state['schedule']):
+    if not (fails(state['plan'], state['schedule']) or fails(state['plan'], state['schedule'])):
         doc['minimise_note'] = 'recorded schedule did not reproduce inside the minimiser'
         return doc
+    doc['confirmed_in_process'] = True
 
     def try_plan(p, s=None):
         s = state['schedule'] if s is None else s
